@@ -114,7 +114,12 @@ func (s c36SysUIDs) IsSystemUID(uid string) bool { return s[uid] }
 
 // c36Store is the per-send PermissionStore. It is read-only after creation.
 type c36Store struct {
-	f        *c36Facts
+	f *c36Facts
+	// fail is nil in the fact-only family. In the read-failure family it names
+	// the logical reads that fail; the point-read port and the batch port
+	// consult the same predicate with the same logical key.
+	fail     func(message.PermissionRead) bool
+	failed   atomic.Int64
 	getCalls atomic.Int64
 	conCalls atomic.Int64
 	anyCalls atomic.Int64
@@ -122,6 +127,10 @@ type c36Store struct {
 
 func (s *c36Store) GetChannelForPermission(_ context.Context, id string, ty int64) (metadb.Channel, error) {
 	s.getCalls.Add(1)
+	if s.fail != nil && s.fail(message.PermissionRead{Kind: message.PermissionReadChannel, ChannelID: id, ChannelType: ty}) {
+		s.failed.Add(1)
+		return metadb.Channel{}, c36ErrRead
+	}
 	ch, ok := s.f.channels[c36Key{id, ty}]
 	if !ok {
 		return metadb.Channel{}, metadb.ErrNotFound
@@ -131,11 +140,19 @@ func (s *c36Store) GetChannelForPermission(_ context.Context, id string, ty int6
 
 func (s *c36Store) ContainsChannelSubscriber(_ context.Context, id string, ty int64, uid string) (bool, error) {
 	s.conCalls.Add(1)
+	if s.fail != nil && s.fail(message.PermissionRead{Kind: message.PermissionReadSubscriberContains, ChannelID: id, ChannelType: ty, UID: uid}) {
+		s.failed.Add(1)
+		return false, c36ErrRead
+	}
 	return s.f.members[c36Key{id, ty}][uid], nil
 }
 
 func (s *c36Store) HasChannelSubscribers(_ context.Context, id string, ty int64) (bool, error) {
 	s.anyCalls.Add(1)
+	if s.fail != nil && s.fail(message.PermissionRead{Kind: message.PermissionReadSubscriberHasAny, ChannelID: id, ChannelType: ty}) {
+		s.failed.Add(1)
+		return false, c36ErrRead
+	}
 	return len(s.f.members[c36Key{id, ty}]) > 0, nil
 }
 
@@ -152,6 +169,11 @@ func (s *c36BatchStore) ReadPermissionsBatch(_ context.Context, reads []message.
 	out := make([]message.PermissionReadResult, len(reads))
 	for i, rd := range reads {
 		key := c36Key{rd.ChannelID, rd.ChannelType}
+		if s.fail != nil && s.fail(rd) {
+			s.failed.Add(1)
+			out[i].Err = c36ErrRead
+			continue
+		}
 		switch rd.Kind {
 		case message.PermissionReadChannel:
 			out[i].Channel, out[i].Found = s.f.channels[key]
@@ -813,6 +835,7 @@ func TestVerifC36(t *testing.T) {
 			}
 			r.Max("max_batch_items", len(items))
 		}
+		c36ReadFailureFamily(r, rng, w, wi, far)
 		batchCalls += bstore.batchCalls.Load()
 		batchReads += bstore.batchReads.Load()
 		perSendReads += pstore.getCalls.Load() + pstore.conCalls.Load() + pstore.anyCalls.Load()
